@@ -417,7 +417,7 @@ func (d *brokerDrv) Step(line string) string {
 		return d.collect(pos[0])
 	case "sub":
 		c := d.b.Conns[pos[0]]
-		if c == nil {
+		if c == nil || c.EOF() {
 			return "no-conn"
 		}
 		sp := &packets.Subscribe{Version: c.Version, PacketID: packets.PacketID(drv.Atoi(pos[1]))}
@@ -451,7 +451,7 @@ func (d *brokerDrv) Step(line string) string {
 		return d.collect("")
 	case "unsub":
 		c := d.b.Conns[pos[0]]
-		if c == nil {
+		if c == nil || c.EOF() {
 			return "no-conn"
 		}
 		up := &packets.Unsubscribe{Version: c.Version, PacketID: packets.PacketID(drv.Atoi(pos[1]))}
@@ -467,7 +467,7 @@ func (d *brokerDrv) Step(line string) string {
 		return d.collect("")
 	case "pub":
 		c := d.b.Conns[pos[0]]
-		if c == nil {
+		if c == nil || c.EOF() {
 			return "no-conn"
 		}
 		payload := []byte(unesc(m["tag"]))
@@ -497,7 +497,7 @@ func (d *brokerDrv) Step(line string) string {
 		return d.collect("")
 	case "ack": // ack <conn> puback|pubrec|pubcomp k=<n>|all [code=N]
 		c := d.b.Conns[pos[0]]
-		if c == nil {
+		if c == nil || c.EOF() {
 			return "no-conn"
 		}
 		sess := d.sessions[c.ClientID]
@@ -538,7 +538,7 @@ func (d *brokerDrv) Step(line string) string {
 		return d.collect("")
 	case "rel":
 		c := d.b.Conns[pos[0]]
-		if c == nil {
+		if c == nil || c.EOF() {
 			return "no-conn"
 		}
 		if err := c.Send(&packets.Pubrel{PacketID: packets.PacketID(drv.Atoi(pos[1]))}); err != nil {
@@ -547,7 +547,7 @@ func (d *brokerDrv) Step(line string) string {
 		return d.collect("")
 	case "ping":
 		c := d.b.Conns[pos[0]]
-		if c == nil {
+		if c == nil || c.EOF() {
 			return "no-conn"
 		}
 		if err := c.Send(&packets.Pingreq{}); err != nil {
@@ -556,7 +556,7 @@ func (d *brokerDrv) Step(line string) string {
 		return d.collect("")
 	case "disc":
 		c := d.b.Conns[pos[0]]
-		if c == nil {
+		if c == nil || c.EOF() {
 			return "no-conn"
 		}
 		dp := &packets.Disconnect{Version: c.Version, Code: byte(geti(m, "code", 0))}
@@ -575,14 +575,14 @@ func (d *brokerDrv) Step(line string) string {
 		return r + " " + d.collect("")
 	case "close":
 		c := d.b.Conns[pos[0]]
-		if c == nil {
+		if c == nil || c.EOF() {
 			return "no-conn"
 		}
 		c.Close()
 		return d.collect("")
 	case "raw":
 		c := d.b.Conns[pos[0]]
-		if c == nil {
+		if c == nil || c.EOF() {
 			return "no-conn"
 		}
 		bs, err := hex.DecodeString(pos[1])
